@@ -884,6 +884,10 @@ func (e *orderEngine) classify(l *mapLoop) []sink {
 			if valConst || !valDep {
 				return
 			}
+			// a counter, sum or flag kept in memory: x.n += f(entry), x.seen = x.seen || …
+			if st, ok := ins.(*ssa.Store); ok && direct && numericAccumulation(st) {
+				return
+			}
 			// the loop's own value variable (or any local cell) that is only read
 			// inside the loop body never shows which entry came last
 			if direct && target != nil {
@@ -1347,6 +1351,17 @@ func comparatorOrdersElements(less *ssa.Function) bool {
 						found = true
 					}
 				}
+				// a named ordering of the repository applied to the two elements:
+				// less(xs[i], xs[j]) — judged with its parameters as the elements
+				if sc := x.Call.StaticCallee(); sc != nil && sc != less && isRepoFn(sc) && len(sc.Blocks) > 0 && len(x.Call.Args) == 2 &&
+					sc.Signature.Results().Len() == 1 && isBoolType(sc.Signature.Results().At(0).Type()) &&
+					fromElem(x.Call.Args[0], 0) && fromElem(x.Call.Args[1], 0) && comparatorDepth < 3 {
+					comparatorDepth++
+					if comparatorOrdersElements(sc) {
+						found = true
+					}
+					comparatorDepth--
+				}
 			}
 		})
 	}
@@ -1615,7 +1630,24 @@ func (e *orderEngine) sliceUseState(start ssa.Value, body map[*ssa.BasicBlock]bo
 			case *ssa.IndexAddr:
 				if x.X == v {
 					if sl := sliceLoopOf(x); sl != nil {
-						if sinks := e.classify(sl); len(sinks) == 0 {
+						// a trial classification: what it would mark on the function
+						// (returns a map-ordered list) only holds if this use turns out
+						// to be unsorted, and then the use itself is reported
+						var saved funcSummarySnapshot
+						if fs := e.sum[sl.fn]; fs != nil {
+							saved = funcSummarySnapshot{true, fs.returnsTaint, fs.taintWhy}
+						}
+						sinks := e.classify(sl)
+						sortedFirst := false
+						for _, r2 := range *v.Referrers() {
+							if cl2, ok := r2.(ssa.CallInstruction); ok && isSanitiserCall(cl2) && instrDominates(r2, x) {
+								sortedFirst = true
+							}
+						}
+						if fs := e.sum[sl.fn]; fs != nil && saved.valid && sortedFirst {
+							fs.returnsTaint, fs.taintWhy = saved.returnsTaint, saved.taintWhy
+						}
+						if len(sinks) == 0 {
 							continue // element-wise use with no order-sensitive effect
 						}
 					}
@@ -2245,3 +2277,38 @@ func keyParamOrders(fnVal ssa.Value, fromElem func(ssa.Value, int) bool) bool {
 	}
 	return n > 0 && good
 }
+
+// numericAccumulation: *addr = *addr ⊕ v with ⊕ a commutative, associative
+// operator on integers or booleans (and +, * on floats, as for local counters):
+// the final value does not depend on the order of the additions.
+func numericAccumulation(st *ssa.Store) bool {
+	bin, ok := st.Val.(*ssa.BinOp)
+	if !ok {
+		return false
+	}
+	bt, _ := bin.Type().Underlying().(*types.Basic)
+	if bt == nil || bt.Info()&(types.IsInteger|types.IsFloat|types.IsBoolean) == 0 {
+		return false
+	}
+	switch bin.Op {
+	case token.ADD, token.MUL, token.OR, token.AND, token.XOR, token.LOR, token.LAND:
+	default:
+		return false
+	}
+	key := exprKey(st.Addr, 0)
+	for _, side := range []ssa.Value{bin.X, bin.Y} {
+		if ld, ok := side.(*ssa.UnOp); ok && ld.Op == token.MUL && exprKey(ld.X, 0) == key {
+			return true
+		}
+	}
+	return false
+}
+
+type funcSummarySnapshot struct {
+	valid        bool
+	returnsTaint bool
+	taintWhy     string
+}
+
+// comparatorDepth bounds the descent of comparatorOrdersElements into named orderings.
+var comparatorDepth int
